@@ -305,6 +305,37 @@ class C01(Prop):
                       mito.met_line("auto", "tool1(t0, k=t1)"), mito.met_line("math", "t0 + t1")]
             cases.append({"lines": lines, "note": "tool raises " + kind})
         spaces.append({"name": f"{len(mito.EXC_KINDS)} kinds of exception raised by a tool body", "cases": cases})
+        # callee / variable names that are NOT in the allow-list but exist somewhere (dunder methods, public members of
+        # math / builtins / operator): every such call must fail (oracle clause no_lookup_outside_allow_list)
+        import builtins as _b
+        import math as _m
+        import operator as _o
+        interactive = {"input", "breakpoint", "help", "exit", "quit", "copyright", "credits", "license", "open", "print",
+                       "exec", "eval", "compile", "__import__", "globals", "locals", "vars", "dir", "memoryview"}
+        dunders = ["__getattribute__", "__class__", "__dir__", "__init__", "__reduce__", "__subclasshook__", "__doc__",
+                   "__dict__", "__eq__", "__sizeof__", "__new__", "__call__", "__builtins__", "__name__", "__loader__",
+                   "__spec__", "__import__", "__format__", "__reduce_ex__", "__init_subclass__", "__setattr__",
+                   "__delattr__", "__repr__", "__str__", "__hash__", "__module__", "__self__", "__package__", "__file__"]
+        pool = dunders + sorted({n for mod in (_m, _b, _o) for n in dir(mod)
+                                 if not n.startswith("_") and n not in self.allow_names})
+        shapes = ["{}()", "{}(1)", "{}(1, 2)", "{}('m')", "{}('__dict__')", "{}", "{}([3, 4])", "{}(3.0, 4.0)"]
+        if tier == "quick":
+            shapes = shapes[:4] + shapes[5:6]
+        cases, lines = [], None
+        for nm in pool:
+            for sh in shapes:
+                if nm in interactive and sh != "{}":
+                    # on the unchanged tree these fail like the rest; a change that made them callable would block on
+                    # the worker's stdin or write files — they are exercised as bare names and with zero arguments only
+                    if sh != "{}()" or nm in ("input", "breakpoint", "help", "exit", "quit", "open", "exec", "eval",
+                                              "compile", "__import__", "memoryview"):
+                        continue
+                if lines is None or len(lines) > 60:
+                    lines = mito.header(rng, facts, silent=True, ros=(1000, 1))
+                    cases.append({"lines": lines, "note": "unlisted names"})
+                lines.append(mito.cmet_line("math", sh.format(nm)))
+        spaces.append({"name": f"{len(pool)} names outside the allow-list (dunders, unlisted members of math / builtins / "
+                               f"operator) x {len(shapes)} call shapes", "cases": cases})
         # raw strings
         cases = []
         for (s, safe) in mito.raw_strings(self.max_len):
